@@ -31,6 +31,20 @@ func verifPoint(point string, pid PipelineID, nid NodeID) {
 	}
 }
 
+// verifStatusNode names the node whose traversal end produced the Status: the
+// completed node, or the node named by a warning that implements VerifNode().
+func verifStatusNode(s Status) NodeID {
+	if len(s.complete) > 0 {
+		return s.complete[0]
+	}
+	for _, w := range s.Warnings {
+		if v, ok := w.(interface{ VerifNode() NodeID }); ok {
+			return v.VerifNode()
+		}
+	}
+	return ""
+}
+
 // VerifNode describes a registered node.
 type VerifNode struct {
 	Node           Node
